@@ -19,6 +19,7 @@ def handle (j : Json) : Except String Json := do
   | "fusion" => Driver.fusion j
   | "da" => Driver.da j
   | "hoist" => Driver.hoist j
+  | "nest" => Driver.nest j
   | "legality" => Driver.legality j
   | "parse_spec" => Driver.parseSpec j
   | "prec" => Driver.prec j
